@@ -291,6 +291,14 @@ func init() {
 }
 
 func runC02(c *rt.Ctx) {
+	appenderSweep(c, func() []any {
+		var out []any
+		for _, v := range []roman.Number{roman.Number(0), roman.Number(1), roman.Number(4), roman.Number(1994), roman.Number(3999), roman.Number(4000), roman.Number(123456)} {
+			v := v
+			out = append(out, v, &v)
+		}
+		return out
+	}())
 	configuredEpisode() // the process has a past: failing configured Formatters and Parsers, since restored
 	c.Extra("history_before_the_streams", "an episode of failing configured Formatter/Parser variables in all five packages")
 	c.SetRule("every n in [0,130000] x every one of the 128 subsets of the seven format flags is enumerated once (exhaustive): formatter output vs canonical reference, then parsed back as string and []byte and validated; " +
